@@ -5,6 +5,7 @@ package main
 
 import (
 	"context"
+	"errors"
 	"fmt"
 	"math/rand"
 	"net"
@@ -14,6 +15,7 @@ import (
 	"time"
 
 	"github.com/arloliu/go-secs/v2/hsms"
+	"github.com/arloliu/go-secs/v2/secs2"
 )
 
 type runFn func(e *env) (hdr string, tags []string)
@@ -1018,6 +1020,175 @@ func planStraggler(rg *rand.Rand) (cfgT, runFn) {
 			}
 		}
 		e.quiesce(2, "gen2 undisturbed after the gen1 straggler ran")
+		e.closeConn()
+		e.postClose(4 * time.Millisecond)
+		return hdr, tags
+	}
+}
+
+// ---------------------------------------------------------------------------------------------
+// parkwrite: a processed disconnect of generation N must not be replayed into its successor by a
+// SYNCHRONOUS sender whose write on generation N fails late. The harness owns the library's pipe
+// end (parkConn) and parks the Write of one synchronous data send (caller ctx live throughout) on
+// generation N; N is then ended (the peer closes the pipe and the library reconnects, or
+// Close + Open); generation N+1 is brought to Selected and its notifications are delivered; only
+// THEN the parked Write is released with an error. Every wait is event-driven (parked signal, send
+// returned, State()/notification agreement); the only timed part is the window in which nothing
+// may happen: State() stays Selected, no notification, no dial/listen, Reconnects() unchanged, the
+// link stays up, and (HSMS-SS) a request/reply round trip on N+1 succeeds. SECS-I takes the
+// Close + Open variant (its line engine is the only reader, so a silent peer close is not noticed
+// while the engine sits in the parked write) and no round trip (the rig's SECS-I peer is idle).
+
+var parkSeq atomic.Int32
+
+func planParkWrite(rg *rand.Rand) (cfgT, runFn) {
+	k := int(parkSeq.Add(1) - 1)
+	cfg := baseCfg(rg, k%2 == 0)
+	cfg.parkable = true
+	cfg.closeTimeout = time.Duration(60+rg.Intn(60)) * time.Millisecond
+	reopen := (k/2)%2 == 1
+	if k%5 == 4 {
+		cfg.transport, cfg.buffered, reopen = "secs1", false, true
+	}
+	watch := time.Duration(150+rg.Intn(100)) * time.Millisecond
+	return cfg, func(e *env) (string, []string) {
+		how := "peerClose"
+		if reopen {
+			how = "closeOpen"
+		}
+		hdr := fmt.Sprintf("%s active=%v end=%s closeTimeout=%v watch=%v buffered=%v", cfg.transport, cfg.active, how, cfg.closeTimeout, watch, cfg.buffered)
+		tags := []string{fmt.Sprintf("parkwrite:%s:active=%v:%s", cfg.transport, cfg.active, how)}
+		up := func(gen int) *peer { // bring one generation to Selected
+			var p *peer
+			if cfg.active {
+				p = e.nextPeer(stepWait)
+			} else {
+				p, _ = e.connect(stepWait)
+			}
+			if p == nil {
+				e.anomaly("gen %d: no link", gen)
+				return nil
+			}
+			if cfg.transport == "hsmsss" {
+				if cfg.active && !acceptSelect(e, p, 0) {
+					e.anomaly("gen %d: no Select.req", gen)
+					return nil
+				}
+				if !cfg.active && peerSelect(e, p, uint32(7000+gen)) != 0 {
+					e.anomaly("gen %d: Select.req not answered status 0", gen)
+					return nil
+				}
+			}
+			if !e.waitState(2, stepWait) {
+				e.anomaly("gen %d: not Selected", gen)
+				return nil
+			}
+			return p
+		}
+		if e.open(hsms.OpenBackground, 3*time.Second) != eOK {
+			e.anomaly("Open failed")
+			return hdr, tags
+		}
+		p1 := up(1)
+		if p1 == nil || !e.quiesce(2, "gen1 selected") {
+			return hdr, tags
+		}
+		pk := e.lastPark()
+		pk.armed.Store(true)
+		sent := make(chan error, 1)
+		sctx, cancel := context.WithTimeout(context.Background(), 60*time.Second) // live throughout
+		defer cancel()
+		e.wg.Add(1)
+		go func() {
+			defer e.wg.Done()
+			_, err := e.conn.SendDataMessage(sctx, 1, 1, false, secs2.A("park"))
+			sent <- err
+		}()
+		select {
+		case <-pk.parked:
+		case <-time.After(stepWait):
+			e.anomaly("the synchronous send did not reach the transport write")
+			return hdr, tags
+		}
+		e.note("gen1: Write of a synchronous S1F1 parked")
+		if reopen {
+			e.closeConn()
+			if e.open(hsms.OpenBackground, 3*time.Second) != eOK {
+				e.anomaly("reopen failed")
+				return hdr, tags
+			}
+		} else {
+			p1.drop()
+		}
+		p2 := up(2)
+		if p2 == nil || !e.quiesce(2, "gen2 selected, gen1 Write still parked") {
+			return hdr, tags
+		}
+		select {
+		case err := <-sent:
+			e.anomaly("the parked send returned before its release (class %d)", errClass(err))
+			return hdr, tags
+		default:
+		}
+		dials, listens, recon := e.nDials.Load(), e.nListens.Load(), e.conn.Metrics().Reconnects()
+		nBefore := len(e.r.snapshot())
+		tags = append(tags, "parkwrite:released-after-gen2-selected")
+		e.note("release the parked gen1 Write with an error (dials %d listens %d reconnects %d)", dials, listens, recon)
+		pk.release <- errors.New("rig: connection reset by peer (late)")
+		select {
+		case err := <-sent:
+			if err == nil {
+				e.failf("lifecycle: a synchronous send whose transport write failed returned nil")
+			}
+		case <-time.After(stepWait):
+			e.anomaly("the released send did not return")
+			return hdr, tags
+		}
+		// the send has returned: whatever it injected is already queued. Nothing may follow.
+		disturbed := func() bool {
+			return e.state() != 2 || p2.isDead() || e.nDials.Load() != dials || e.nListens.Load() != listens || e.conn.Metrics().Reconnects() != recon
+		}
+		end := time.Now().Add(watch)
+		for time.Now().Before(end) && !disturbed() {
+			time.Sleep(500 * time.Microsecond)
+		}
+		notif := false
+		for _, en := range e.r.snapshot()[nBefore:] {
+			notif = notif || en.k == 'N'
+		}
+		if disturbed() || notif {
+			e.sample("parkwrite-watch")
+			e.note("gen2 link closed by the library=%v dials %d->%d listens %d->%d reconnects %d->%d notification=%v", p2.isDead(), dials, e.nDials.Load(), listens, e.nListens.Load(), recon, e.conn.Metrics().Reconnects(), notif)
+			e.failf("replayed generation: a synchronous send's write on generation 1 failed after generation 2 was Selected and generation 2 (nothing happened on its connection) was disturbed (State() left Selected / notification / its link closed / dial or listen / Reconnects())")
+			return hdr, tags
+		}
+		if cfg.transport == "hsmsss" {
+			type rt struct {
+				m   *hsms.DataMessage
+				err error
+			}
+			got := make(chan rt, 1)
+			e.wg.Add(1)
+			go func() {
+				defer e.wg.Done()
+				m, err := e.conn.SendDataMessage(sctx, 1, 1, true, secs2.A("ping"))
+				got <- rt{m, err}
+			}()
+			if f, ok := p2.wait(stepWait, isST(0)); ok {
+				_ = p2.send(ctl(f.sid, 1, 2, 0, f.sys)) // S1F2, same system bytes
+			}
+			select {
+			case r := <-got:
+				if r.err != nil || r.m == nil {
+					e.failf("replayed generation: a request/reply round trip on generation 2 failed after the late write failure of generation 1 (error class %d)", errClass(r.err))
+					return hdr, tags
+				}
+			case <-time.After(stepWait):
+				e.anomaly("round trip did not finish")
+				return hdr, tags
+			}
+		}
+		e.quiesce(2, "gen2 undisturbed after the late gen1 write failure")
 		e.closeConn()
 		e.postClose(4 * time.Millisecond)
 		return hdr, tags
